@@ -17,6 +17,8 @@ PROFILES_QUICK = [
     {"block_size": 2 << 20, "full": False},
     {"block_size": 2048, "full": True, "sel": 2},  # 4 sectors per block: bitmap still one sector
     {"block_size": 4 << 20, "full": False, "sel": 3, "table_offset": 2048},  # 8192 sectors per block: 2 bitmap sectors
+    {"block_size": 4096, "full": False, "sel": 3, "data_gap": 0xC0000000 * 512},   # table entries (sector numbers) with the top bit set
+    {"block_size": 2 << 20, "full": False, "sel": 4, "data_gap": 0xFFF00000 * 512, "when": lambda img: img["kind"] == "dynamic"},
 ]
 PROFILES_THOROUGH = PROFILES_QUICK + [
     {"block_size": 512 << 10, "full": False},
@@ -81,6 +83,37 @@ def make_trace(tid, rng, nops=30, **opt):
             "sizeB": size_b, "sector": 512, "geo": b.geo(), "events": rec.events}
 
 
+def fixed_container_content(ctx, rng):
+    """Fixed disks whose guest content starts with something that looks like VHD metadata (a footer copy + dynamic header, as
+    a nested dynamic VHD has at offset 0) or other container signatures: served verbatim, size from the trailing footer."""
+    from dissect.hypervisor.disk.vhd import VHD
+    from harness import enc_vhd, patterns
+    from harness.vfile import VirtualFile
+    inner_vf, _ = enc_vhd.build({"kind": "dynamic", "n": 3, "cb": 1, "bat": {0: 1, 1: -1, 2: 0}, "size": 3, "foot511": False}, block_size=4096, P=2, file_id=9)
+    inner = {"dynamic-vhd": inner_vf.peek_bytes(0, inner_vf.size()), "footer-only": enc_vhd.footer(1 << 30, 3, 512), "fixed-footer": enc_vhd.footer(4096, 2, 0xFFFFFFFFFFFFFFFF),
+             "cxsparse": b"cxsparse" + bytes(100), "vhdxfile": b"vhdxfile" + bytes(64), "kdmv": b"KDMV" + bytes(60)}
+    for name, blob in inner.items():
+        for foot511 in (False, True):
+            size_b = (len(blob) + 3 * 4096 + 511) // 512 * 512
+            content = blob + patterns.pat(5, len(blob), size_b - len(blob))
+            ft = enc_vhd.footer(size_b, 2, 0xFFFFFFFFFFFFFFFF)
+            flen = 511 if foot511 else 512
+            vf = VirtualFile(size_b + flen, [(0, size_b, "bytes", content), (size_b, flen, "bytes", ft[:flen])])
+            ctx.case(key=("fixed-container", name, foot511), nontrivial=True)
+            try:
+                v = VHD(vf)
+                got = v.read(size_b + 10)
+                v.seek(len(blob) // 2)
+                got2 = v.read(4096)
+            except Exception as e:  # noqa: BLE001
+                ctx.violation({"format": "vhd", "fail": "read-raised", "sub": "fixed-container", "inner": name, "exc": type(e).__name__},
+                              {"inner": name, "foot511": foot511, "error": repr(e)[:300]})
+                continue
+            if got != content or got2 != content[len(blob) // 2: len(blob) // 2 + 4096] or v.size != size_b:
+                ctx.violation({"format": "vhd", "fail": "read-mismatch", "sub": "fixed-container", "inner": name},
+                              {"inner": name, "foot511": foot511, "size": int(v.size), "want_size": size_b, "diff": disk.first_diff(content, got)})
+
+
 def _attrs(img, prof):
     return {"block_size": prof["block_size"], "kind": img["kind"], "foot511": img["foot511"]}
 
@@ -97,6 +130,7 @@ def run(ctx):
     sts = diskprop.dump_states(ctx, "Vhd", "Vhd_img4.cfg" if thorough else "Vhd_img.cfg")
     diskprop.replay_states(ctx, "vhd", sts, PROFILES_THOROUGH if thorough else PROFILES_QUICK, build,
                            attrs_of=_attrs, cap=80 if thorough else 48, sectors_api=_sectors)
+    fixed_container_content(ctx, random.Random(ctx.seed + 404))
     diskprop.traces(ctx, "vhd", lambda tid, r: make_trace(tid, r, 40 if thorough else 25, many=("mid" if tid % 8 == 0 else None)), 400 if thorough else 64,
                     "TraceDisk", "TraceDisk.cfg", lambda t: {"format": "vhd", "block_size": t["geo"]["cellB"], "kind": t["img"]["kind"]})
 
